@@ -16,7 +16,7 @@ func ruleC16(prog *Program, rep *Report) {
 	ruleFieldLoopBounds(prog, rep, []string{"alt", "oj", "sen"})
 	ruleFreshTarget(prog, rep)
 	ruleFullRange(prog, rep, 6, "alt", "oj", "sen")
-	ruleUnsafeKind(prog, rep) // what Marshal writes for a field must be what Unmarshal can read back
+	ruleUnsafeKind(prog, rep)          // what Marshal writes for a field must be what Unmarshal can read back
 	ruleMemoGuard(prog, rep, 1, "alt") // registration of a type that refers to itself ends
 	ruleFallbackTwins(prog, rep, 1, "alt", "oj", "sen", "gen", "jp", "pretty", "asm", "")
 	ruleNumFamily(prog, rep, 4, "alt") // a field of any integer width is recomposed like its siblings
